@@ -587,7 +587,15 @@ struct ProbeSend<T: ?Sized>(PhantomData<T>);\nstruct ProbeSync<T: ?Sized>(Phanto
 trait FbSend { const V: bool = false; }\ntrait FbSync { const V: bool = false; }\n\
 impl<T: ?Sized> FbSend for ProbeSend<T> {}\nimpl<T: ?Sized> FbSync for ProbeSync<T> {}\n\
 impl<T: ?Sized + Send> ProbeSend<T> { const V: bool = true; }\nimpl<T: ?Sized + Sync> ProbeSync<T> { const V: bool = true; }\n\
-macro_rules! ss { ($t:ty) => { (<ProbeSend<$t>>::V as u8, <ProbeSync<$t>>::V as u8) }; }\n";
+macro_rules! ss { ($t:ty) => { (<ProbeSend<$t>>::V as u8, <ProbeSync<$t>>::V as u8) }; }\n\
+/// the same question asked of a VALUE whose type cannot be named (search results): inherent methods win when the bound holds\n\
+struct PV<'a, T>(&'a T);\ntrait FbV { fn is_send(&self) -> u8 { 0 } fn is_sync(&self) -> u8 { 0 } }\nimpl<'a, T> FbV for PV<'a, T> {}\n\
+struct PVS<'a, T>(&'a T);\ntrait FbVS { fn is_sync(&self) -> u8 { 0 } }\nimpl<'a, T> FbVS for PVS<'a, T> {}\n\
+impl<'a, T: Send> PV<'a, T> { fn is_send(&self) -> u8 { 1 } }\nimpl<'a, T: Sync> PVS<'a, T> { fn is_sync(&self) -> u8 { 1 } }\n\
+fn w<T>(x: u8) -> W<T> { W(x, PhantomData) }\n";
+
+/// result types that cannot be named (private modules): probed on values obtained from a search
+pub const VALUE_PROBES: [&str; 3] = ["Path", "PathEdgeIterator", "PathNodeIterator"];
 
 fn c16_probe_program(triples: &[(Ty, Ty, Ty)]) -> String {
     let mut s = String::from(C16_PRELUDE);
@@ -607,6 +615,8 @@ fn c16_probe_program(triples: &[(Ty, Ty, Ty)]) -> String {
             for (name, path) in probe_types(m) {
                 let _ = writeln!(s, "        {{ let r = ss!({}); println!(\"PROBE {} {} {} {{}} {{}}\", r.0, r.1); }}", path, i, m, name);
             }
+            // a real path a -> b and its iterators
+            let _ = writeln!(s, "        {{ let a = gdsl::{m}::Node::<K, N, E>::new(w(0), w(1)); let b = gdsl::{m}::Node::<K, N, E>::new(w(2), w(3)); a.connect(&b, w(4)); let p = a.bfs().target(b.key()).search_path().expect(\"path\");\n          println!(\"PROBE {i} {m} Path {{}} {{}}\", PV(&p).is_send(), PVS(&p).is_sync());\n          {{ let it = p.iter_edges(); println!(\"PROBE {i} {m} PathEdgeIterator {{}} {{}}\", PV(&it).is_send(), PVS(&it).is_sync()); }}\n          {{ let it = p.iter_nodes(); println!(\"PROBE {i} {m} PathNodeIterator {{}} {{}}\", PV(&it).is_send(), PVS(&it).is_sync()); }} }}", m = m, i = i);
         }
         s.push_str("    }\n");
     }
@@ -630,7 +640,7 @@ fn c16_positive_program() -> String {
 }
 
 pub fn run_c16(ctx: &mut Ctx) {
-    ctx.rule = "cases = (K, N, E) payload type triples x public types {Node, Edge, Graph, edge iterators} of all four modules, as generated probe programs type-checked against /repo's working tree: (a) exhaustive: all 5^3 = 125 triples of the leaves u8 (Send+Sync), Cell<u8> (Send only), MutexGuard<'static,u8> (Sync only), Rc<u8> and *const u8 (neither); (b) proptest-generated nested type expressions (Option, Box, Vec, tuple, Arc, Mutex, RwLock, Cell, &'static; depth <= 3) with their Send/Sync computed by the std rules. Each probe reads the compiler's answer at run time (an inherent associated const guarded by `T: Send` shadows a blanket trait const `false`), so one compilation answers positive and negative facts. Oracle: sync types are Send <=> Sync <=> K, N, E all Send+Sync; plain types never Send nor Sync; the probe answers for the bare payloads equal the generator's model (guards the oracle); a separate program discharges the generic positive obligation for all Send+Sync payloads and moves/shares sync nodes across real threads. Non-trivial = triple with exactly one offending parameter or whose Send and Sync differ; distinct = hash of (triple, module, type).".into();
+    ctx.rule = "cases = (K, N, E) payload type triples x public types {Node, Edge, Graph, edge iterators} of all four modules plus the unnameable result types {Path, its edge and node iterators}, probed on values obtained from a real search, as generated probe programs type-checked against /repo's working tree: (a) exhaustive: all 5^3 = 125 triples of the leaves u8 (Send+Sync), Cell<u8> (Send only), MutexGuard<'static,u8> (Sync only), Rc<u8> and *const u8 (neither); (b) proptest-generated nested type expressions (Option, Box, Vec, tuple, Arc, Mutex, RwLock, Cell, &'static; depth <= 3) with their Send/Sync computed by the std rules. Each probe reads the compiler's answer at run time (an inherent associated const guarded by `T: Send` shadows a blanket trait const `false`), so one compilation answers positive and negative facts. Oracle: sync types are Send <=> Sync <=> K, N, E all Send+Sync; plain types never Send nor Sync; the probe answers for the bare payloads equal the generator's model (guards the oracle); a separate program discharges the generic positive obligation for all Send+Sync payloads and moves/shares sync nodes across real threads. Non-trivial = triple with exactly one offending parameter or whose Send and Sync differ; distinct = hash of (triple, module, type).".into();
     ctx.assumptions = vec!["the universally quantified negative half ('for every payload lacking Send or Sync ...') cannot be a single generic obligation in Rust; it is covered by the complete leaf x position matrix and random nested witnesses".into(), "trusted: rustc's auto-trait solver".into()];
     let tier = ctx.tier;
     let wd = ctx.watchdog.clone();
@@ -699,7 +709,7 @@ pub fn run_c16(ctx: &mut Ctx) {
             let differ = [k, n, e].iter().any(|t| t.ss().0 != t.ss().1);
             for m in MODS {
                 let sync = m.starts_with("sync_");
-                for (name, _) in probe_types(m) {
+                for name in probe_types(m).into_iter().map(|x| x.0).chain(VALUE_PROBES.iter().map(|x| x.to_string())) {
                     ctx.stats.eval();
                     ctx.stats.class(&format!("probe.{}.{}", m, name));
                     if offending == 1 || differ {
